@@ -1,4 +1,5 @@
 import PysnarkModel.Model.Select
+import PysnarkModel.Gen.Api
 import PysnarkModel.Gen.Constants
 /-!
 # C19 — the backend in use is the one the configuration names
@@ -461,5 +462,19 @@ example : derivedModules = ["pysnark.libsnark.backendgg", "pysnark.zkinterface.b
 -- without the derived module the base module keeps its own field
 example : modulusInEffect ["pysnark.zkinterface.backend"] "pysnark.zkinterface.backend"
     = nominalModulus "pysnark.zkinterface.backend" := by decide
+
+
+/-- the eight functions the tracer calls on whatever backend is selected -/
+def backendInterface : List String :=
+  ["privval", "pubval", "zero", "one", "fieldinverse", "get_modulus", "add_constraint", "prove"]
+
+/-- **every selectable backend offers the complete interface**, statically: for every module of the registry re-extracted
+from the source on this run, each interface function is among the names the module defines, imports explicitly or receives
+through the closure of its `from … import *` statements (`Gen.backendExports`, extracted with `ast`, so this covers the
+libsnark modules too, which can not be loaded here).  A derived module that replaces its star import by an explicit list and
+forgets one function makes this obligation fail. -/
+theorem C19_interface_static :
+    ∀ b ∈ Gen.backends, ∀ f ∈ backendInterface, f ∈ ((Gen.backendExports.lookup b.2).getD []) := by
+  decide
 
 end Pysnark
